@@ -1,6 +1,6 @@
 import TakVerif.Props.C15
 import TakVerif.Props.C11
-import TakVerif.Impl.Serve
+import TakVerif.Proofs.ServeCanon
 
 /-!
 # C15 at its consumer: the RPC `Canonicalize` of `cmd/internal/serve`
@@ -17,50 +17,15 @@ that what a client sees *through the text layer* is C15's canonical form:
   of the same length whose prefixes reach images of the original prefix positions; every spelling of each of the eight
   images of the game gets the same response; sending the response back returns it unchanged.
 
+Vocabulary (`Proofs/ServeCanon.lean`): `Spells n b m` — the string `b` is `FormatMove` or `FormatMoveLong` of the move `m`
+of legal shape on an `n`×`n` board, optionally followed by annotation marks `! ? ' *`; `SpellsAll n words ms` — move by
+move; `shortSpelling ms` — `FormatMove` of every move (what the handler sends).
+
 Hypotheses that remain: `NoCollisionAt` as in `C15.canonical_refines_default`; for the last clause only, that the moves
 of the canonical form have a legal *shape* (`Notation.LegalShape`, C11's domain — true of every move the rule book
 accepts, not proved here). -/
 namespace C15
 open Tak Tak.Serve Go Notation Spec
-
-/-- a client's spelling `b` of the move `m` on an `n`×`n` board: `FormatMove` or `FormatMoveLong` of a move of legal
-shape, optionally followed by annotation marks -/
-def Spells (n : Nat) (b : Bytes) (m : Tak.Move) : Prop :=
-  LegalShape n m ∧ ∃ (long : Bool) (suffix : Bytes), (∀ c ∈ suffix, c ∈ lit "!?'*") ∧ b = PTN.formatMove m long ++ suffix
-
-/-- `words` spells the game `ms` move by move -/
-inductive SpellsAll (n : Nat) : List Bytes → List Tak.Move → Prop
-  | nil : SpellsAll n [] []
-  | cons {b : Bytes} {m : Tak.Move} {bs : List Bytes} {ms : List Tak.Move} :
-      Spells n b m → SpellsAll n bs ms → SpellsAll n (b :: bs) (m :: ms)
-
-/-- the spelling the handler itself produces -/
-def shortSpelling (ms : List Tak.Move) : List Bytes := ms.map (fun m => PTN.formatMove m false)
-
-theorem spells_short {n : Nat} {m : Tak.Move} (h : LegalShape n m) : Spells n (PTN.formatMove m false) m :=
-  ⟨h, false, [], (by intro c hc; cases hc), (by simp)⟩
-
-/-- the parsing loop of the handler reads every spelling of a game as that game -/
-theorem parseMoves_spellings (basis : Array W) (n : Nat) :
-    ∀ (words : List Bytes) (ms : List Tak.Move), SpellsAll n words ms →
-      parseMoves (takEnv basis) words = .ok ms := by
-  intro words ms h
-  induction h with
-  | nil => rfl
-  | @cons b m words ms hb _ ih =>
-    obtain ⟨hshape, long, suffix, hsuf, rfl⟩ := hb
-    have hp : (takEnv basis).parseMove (PTN.formatMove m long ++ suffix) = .ok m :=
-      C11.annotations_ignored n m hshape long suffix hsuf
-    simp only [parseMoves, hp, ih]
-
-theorem spellsAll_shortSpelling {n : Nat} :
-    ∀ (ms : List Tak.Move), (∀ m ∈ ms, LegalShape n m) → SpellsAll n (shortSpelling ms) ms := by
-  intro ms
-  induction ms with
-  | nil => intro _; exact SpellsAll.nil
-  | cons m ms ih =>
-    intro h
-    exact SpellsAll.cons (spells_short (h m (by simp))) (ih (fun x hx => h x (by simp [hx])))
 
 /-- **The response of `Canonicalize` is the canonical form, spelled by `FormatMove`**: whatever spelling of the game
 `ms` the client sends for a board size `n ≥ 0`, the handler answers with the short spelling of `Tak.canonical basis n ms`,
